@@ -207,7 +207,16 @@ def gen_case(rng, tier, index):
             inner = [i for i, d in enumerate(seq)
                      if d[0] == ".cfi_startproc"]
             good = R.encode_cfa(("expression", 3, gen_expr(rng)), order, ptr)
-            bad = rng.choice([list(good[:-1]), [0x0F, 0x05, 0x08],
+            # an expression whose last operand (fixed width) is cut short
+            # while its length field says exactly what is there
+            cut = b"".join(R.encode_op(o, order, ptr) for o in gen_expr(rng))
+            cut += R.encode_op(rng.choice([("const4u", 0x12345678),
+                                           ("const2u", 0x1234),
+                                           ("const8u", 1 << 40)]),
+                               order, ptr)[:-1]
+            short = [0x0F] + list(R.uleb(len(cut))) + list(cut)
+            bad = rng.choice([list(good[:-1]), short, short,
+                              [0x0F, 0x05, 0x08],
                               [0x10, 0x81], [0x16, 0x01, 0x02, 0x10, 0x80],
                               [0x0F, 0x01, 0x08, 0x2A], [0x3F]])
             seq.insert(rng.choice(inner) + 1, [".cfi_escape", bad, None])
